@@ -744,6 +744,61 @@ func genCodec(repo string) (string, []string) {
 		}
 		walkBlock(fd.Body.List, nil)
 	}
+	// ---- removed rules: the Deleted flag is derived from the rule name on load ----
+	deletedExpr := ""
+	if fd := findFunc(f, "Catalog", "BuildKnowledgeBase"); fd != nil {
+		ast.Inspect(fd.Body, func(n ast.Node) bool {
+			cl, ok := n.(*ast.CompositeLit)
+			if !ok || types.ExprString(cl.Type) != "RuleEntry" {
+				return true
+			}
+			for _, el := range cl.Elts {
+				if kv, ok := el.(*ast.KeyValueExpr); ok && types.ExprString(kv.Key) == "Deleted" {
+					deletedExpr = types.ExprString(kv.Value)
+				}
+			}
+			return true
+		})
+	}
+	tombPrefix, tombLen, tombParse := "", "", ""
+	if fd := findFunc(f, "", "isTombstoneName"); fd != nil {
+		ast.Inspect(fd.Body, func(n ast.Node) bool {
+			switch x := n.(type) {
+			case *ast.ValueSpec:
+				if len(x.Names) == 1 && x.Names[0].Name == "prefix" && len(x.Values) == 1 {
+					if v, err := strconv.Unquote(types.ExprString(x.Values[0])); err == nil {
+						tombPrefix = v
+					}
+				}
+			case *ast.IfStmt:
+				if tombLen == "" {
+					tombLen = types.ExprString(x.Cond)
+				}
+			case *ast.CallExpr:
+				if types.ExprString(x.Fun) == "uuid.Parse" {
+					tombParse = types.ExprString(x)
+				}
+			}
+			return true
+		})
+	}
+	var removeFormats []string
+	if fk, err := parser.ParseFile(t.fset, filepath.Join(repo, "ast", "KnowledgeBase.go"), nil, 0); err == nil {
+		for _, d := range fk.Decls {
+			fd, ok := d.(*ast.FuncDecl)
+			if !ok || fd.Body == nil || fd.Name.Name != "RemoveRuleEntry" {
+				continue
+			}
+			ast.Inspect(fd.Body, func(n ast.Node) bool {
+				if ce, ok := n.(*ast.CallExpr); ok && types.ExprString(ce.Fun) == "fmt.Sprintf" && len(ce.Args) == 2 {
+					if v, err := strconv.Unquote(types.ExprString(ce.Args[0])); err == nil {
+						removeFormats = append(removeFormats, v+" <- "+types.ExprString(ce.Args[1]))
+					}
+				}
+				return true
+			})
+		}
+	}
 	// the byte-block helper: its guards, in order
 	var helperGuards []string
 	if fd := findFunc(f, "", "readBytesFromReader"); fd != nil {
@@ -762,6 +817,11 @@ func genCodec(repo string) (string, []string) {
 	}
 	fmt.Fprintf(&b, "\nDefinition gen_unchecked_errors : list string := [%s].\n", q(t.unchecked))
 	fmt.Fprintf(&b, "Definition gen_swallowed_errors : list string := [%s].\n", q(t.swallowed))
+	fmt.Fprintf(&b, "\n(* BuildKnowledgeBase: RuleEntry{ ..., Deleted: <this> }; isTombstoneName; the names RemoveRuleEntry makes *)\n")
+	fmt.Fprintf(&b, "Definition gen_rule_entry_deleted : string := %s.\n", coqStr(deletedExpr))
+	fmt.Fprintf(&b, "Definition gen_tombstone_prefix : string := %s.\n", coqStr(tombPrefix))
+	fmt.Fprintf(&b, "Definition gen_tombstone_shape : list string := [%s].\n", q([]string{tombLen, tombParse}))
+	fmt.Fprintf(&b, "Definition gen_remove_formats : list string := [%s].\n", q(removeFormats))
 	fmt.Fprintf(&b, "\n(* make(T, n) with n neither a literal nor len(..): sizes taken from the stream *)\nDefinition gen_length_driven_makes : list string := [%s].\n", q(driven))
 	fmt.Fprintf(&b, "Definition gen_guarded_makes : list string := [%s].\n", q(guarded))
 	fmt.Fprintf(&b, "Definition gen_read_helper_guards : list string := [%s].\n", q(helperGuards))
